@@ -18,6 +18,8 @@ def roots (hs : Bool) (validActive : Bool) : Prog → Nat
   | .spanThread cs => (if validActive then 0 else if hs then 1 else 0) + rootsList hs true cs
   | .spanAsync cs => (if validActive then 0 else if hs then 1 else 0) + rootsList hs true cs
   | .push tp cs => rootsList hs tp.valid cs
+  | .pushState _ cs => rootsList hs validActive cs
+  | .pushBoth tp _ cs => rootsList hs tp.valid cs
   | .carry cs => rootsList hs validActive cs
 def rootsList (hs : Bool) (validActive : Bool) : List Prog → Nat
   | [] => 0
@@ -31,6 +33,8 @@ def ExtOnly : Prog → Prop
   | .spanThread cs => ExtOnlyList cs
   | .spanAsync cs => ExtOnlyList cs
   | .push tp cs => (∀ k, tp.spanId ≠ some (.gen k)) ∧ ExtOnlyList cs
+  | .pushState _ cs => ExtOnlyList cs
+  | .pushBoth tp _ cs => (∀ k, tp.spanId ≠ some (.gen k)) ∧ ExtOnlyList cs
   | .carry cs => ExtOnlyList cs
 def ExtOnlyList : List Prog → Prop
   | [] => True
@@ -84,6 +88,17 @@ theorem openSpec_facts (c : Cfg) (e : Env) :
 theorem enterSt_self_none (st : Option Active) : enterSt st none = st := by
   cases st <;> rfl
 
+theorem validOf_stateActive (st : Option Active) (ts : Nat) : validOf (some (stateActive st ts)) = validOf st := by
+  cases st with
+  | none => simp [stateActive, validOf_some, validOf_none, TP.empty, TP.valid]
+  | some a => simp [stateActive, validOf_some]
+
+theorem below_stateActive (st : Option Active) (ts n : Nat) (hb : Below st n) : Below (some (stateActive st ts)) n := by
+  intro a k h1 h2
+  cases st with
+  | none => cases h1; simp [stateActive, TP.empty] at h2
+  | some b => cases h1; exact hb b k rfl (by simpa [stateActive] using h2)
+
 theorem run_main_span (c : Cfg) (cs : List Prog) (e : Env) (hb : Below e.st e.rng)
     (ih : ∀ e' : Env, Below e'.st e'.rng →
       e'.rng ≤ (runList c cs e').rng ∧ (runList c cs e').calls = e'.calls + rootsList c.hasSampler (validOf e'.st) cs) :
@@ -124,6 +139,18 @@ theorem run_main (c : Cfg) : ∀ (p : Prog) (e : Env), ExtOnly p → Below e.st 
       intro a k h1 h2; cases h1; exact absurd h2 (hx.1 k)
     have := run_list c cs { e with st := some (pushedActive e.st tp) } hx.2 hb'
     simpa [validOf_some, pushedActive] using this
+  | .pushState ts cs, e, hx, hb => by
+    simp only [run, roots]
+    have hb' : Below (some (stateActive e.st ts)) e.rng := below_stateActive e.st ts e.rng hb
+    have := run_list c cs { e with st := some (stateActive e.st ts) } (by simpa [ExtOnly] using hx) hb'
+    simpa [validOf_stateActive] using this
+  | .pushBoth tp ts cs, e, hx, hb => by
+    simp only [run, roots]
+    simp only [ExtOnly] at hx
+    have hb' : Below (some (bothActive e.st tp ts)) e.rng := by
+      intro a k h1 h2; cases h1; exact absurd h2 (hx.1 k)
+    have := run_list c cs { e with st := some (bothActive e.st tp ts) } hx.2 hb'
+    simpa [validOf_some, bothActive, pushedActive] using this
   | .carry cs, e, hx, hb => by
     simp only [run, roots, enterSt_self_none]
     have := run_list c cs { e with st := e.st } (by simpa [ExtOnly] using hx) hb
@@ -163,6 +190,8 @@ def NoPush : Prog → Prop
   | .spanThread cs => NoPushList cs
   | .spanAsync cs => NoPushList cs
   | .push _ _ => False
+  | .pushState _ cs => NoPushList cs      -- pushing a tracestate does not touch the traceparent
+  | .pushBoth _ _ _ => False
   | .carry cs => NoPushList cs
 def NoPushList : List Prog → Prop
   | [] => True
@@ -175,6 +204,8 @@ theorem extOnly_of_noPush : ∀ (p : Prog), NoPush p → ExtOnly p
   | .spanThread cs, h => by simp only [ExtOnly]; exact list cs (by simpa [NoPush] using h)
   | .spanAsync cs, h => by simp only [ExtOnly]; exact list cs (by simpa [NoPush] using h)
   | .push _ _, h => by simp [NoPush] at h
+  | .pushState _ cs, h => by simp only [ExtOnly]; exact list cs (by simpa [NoPush] using h)
+  | .pushBoth _ _ _, h => by simp [NoPush] at h
   | .carry cs, h => by simp only [ExtOnly]; exact list cs (by simpa [NoPush] using h)
   where list : ∀ (ps : List Prog), NoPushList ps → ExtOnlyList ps
   | [], _ => trivial
@@ -187,19 +218,19 @@ def Silent : Obs → Prop
   | .sampler _ _ _ => False
   | .spanOpen enabled _ => enabled = false
   | .spanDone _ => False
-  | .event cur ids _ passIn => cur.sampled = false ∧ ids = Ids.empty ∧ passIn = false
+  | .event cur _ ids _ passIn => cur.sampled = false ∧ ids = Ids.empty ∧ passIn = false
 
 /-- What "inside the sampled trace `t`" means for one observation. -/
 def InTrace (t : Option Id) : Obs → Prop
   | .sampler _ _ _ => False
   | .spanOpen enabled ids => enabled = true ∧ ids.traceId = t
   | .spanDone ids => ids.traceId = t ∧ ids.spanId.isSome = true
-  | .event cur ids _ passIn =>
+  | .event cur _ ids _ passIn =>
     cur.traceId = t ∧ cur.sampled = true ∧ passIn = true ∧ ids.traceId = t ∧ ids.spanId = cur.spanId
 
 theorem openSpec_unsampled (c : Cfg) (e : Env) (a : Active) (hst : e.st = some a) (hv : a.tp.valid = true)
     (hs : a.tp.sampled = false) :
-    ∃ child seen sid n, openSpec c e = (false, child, some ⟨⟨a.tp.traceId, some sid, 0⟩, a.tp.spanId⟩,
+    ∃ child seen sid n, openSpec c e = (false, child, some ⟨⟨a.tp.traceId, some sid, 0⟩, a.tp.spanId, a.state⟩,
       { e with rng := n, out := .spanOpen false seen :: e.out }) ∧ sid = .gen n ∧ e.rng ≤ n := by
   unfold openSpec
   simp only [hst, Option.filter, hv, hs, if_true]
@@ -208,7 +239,7 @@ theorem openSpec_unsampled (c : Cfg) (e : Env) (a : Active) (hst : e.st = some a
 theorem openSpec_sampled (c : Cfg) (e : Env) (a : Active) (hst : e.st = some a) (hv : a.tp.valid = true)
     (hs : a.tp.sampled = true) :
     openSpec c e = (true, ⟨a.tp.traceId, a.tp.spanId, some (.gen (e.rng + 1))⟩,
-      some ⟨⟨a.tp.traceId, some (.gen (e.rng + 1)), a.tp.flags % 256⟩, a.tp.spanId⟩,
+      some ⟨⟨a.tp.traceId, some (.gen (e.rng + 1)), a.tp.flags % 256⟩, a.tp.spanId, a.state⟩,
       { e with rng := e.rng + 1, out := .spanOpen true ⟨a.tp.traceId, a.tp.spanId, some (.gen (e.rng + 1))⟩ :: e.out }) := by
   have ht : a.tp.traceId.isSome = true := by simp only [TP.valid] at hv; simp_all
   have hsp : a.tp.spanId.isSome = true := by simp only [TP.valid] at hv; simp_all
@@ -230,7 +261,7 @@ theorem unsampled_span (c : Cfg) (cs : List Prog) (e : Env) (a : Active) (hb : B
   simp only [run, openSpan_eq_spec c e hb] at ho
   obtain ⟨child, seen, sid, n, hopen, hsid, hn'⟩ := openSpec_unsampled c e a hst hv hs
   simp only [hopen, enterSt, completeSpan, Bool.false_eq_true, if_false] at ho
-  have hb' : Below (some ⟨⟨a.tp.traceId, some sid, 0⟩, a.tp.spanId⟩) n := by
+  have hb' : Below (some ⟨⟨a.tp.traceId, some sid, 0⟩, a.tp.spanId, a.state⟩) n := by
     intro a' k h1 h2; cases h1; subst hsid; cases h2; exact Nat.le_refl _
   have := ih _ _ hb' rfl (valid_child a sid 0 hv) (by simp [TP.sampled]) o ho
   rcases this with h | h
@@ -265,7 +296,7 @@ theorem unsampled_silent (c : Cfg) : ∀ (p : Prog) (e : Env) (a : Active), NoPu
     simp only [run, openSpan_eq_spec c e hb] at ho
     obtain ⟨child, seen, sid, n, hopen, hsid, hn'⟩ := openSpec_unsampled c e a hst hv hs
     simp only [hopen, enterSt, completeSpan, Bool.false_eq_true, if_false] at ho
-    have hb' : Below (some ⟨⟨a.tp.traceId, some sid, 0⟩, a.tp.spanId⟩) n := by
+    have hb' : Below (some ⟨⟨a.tp.traceId, some sid, 0⟩, a.tp.spanId, a.state⟩) n := by
       intro a' k h1 h2; cases h1; subst hsid; cases h2; exact Nat.le_refl _
     have := unsampled_list c cs _ _ (by simpa [NoPush] using hn) hb' rfl
       (valid_child a sid 0 hv) (by simp [TP.sampled]) o ho
@@ -276,6 +307,14 @@ theorem unsampled_silent (c : Cfg) : ∀ (p : Prog) (e : Env) (a : Active), NoPu
       · exact Or.inl h
     · exact Or.inr h
   | .push _ _, _, _, hn, _, _, _, _ => by simp [NoPush] at hn
+  | .pushBoth _ _ _, _, _, hn, _, _, _, _ => by simp [NoPush] at hn
+  | .pushState ts cs, e, a, hn, hb, hst, hv, hs => by
+    intro o ho
+    simp only [run] at ho
+    have hb' : Below (some (stateActive e.st ts)) e.rng := below_stateActive e.st ts e.rng hb
+    have hsa : stateActive e.st ts = { a with state := ts } := by simp [stateActive, hst]
+    exact unsampled_list c cs { e with st := some (stateActive e.st ts) } { a with state := ts }
+      (by simpa [NoPush] using hn) hb' (by simp [hsa]) hv hs o (by simpa using ho)
   | .carry cs, e, a, hn, hb, hst, hv, hs => by
     intro o ho
     simp only [run, enterSt_self_none] at ho
@@ -311,7 +350,7 @@ theorem sampled_span (c : Cfg) (cs : List Prog) (e : Env) (a : Active) (hb : Bel
     have : a.tp.flags % 2 = 1 := by simpa using hs
     have : a.tp.flags % 256 % 2 = 1 := by omega
     simpa using this
-  have hb' : Below (some ⟨⟨a.tp.traceId, some (.gen (e.rng + 1)), a.tp.flags % 256⟩, a.tp.spanId⟩) (e.rng + 1) := by
+  have hb' : Below (some ⟨⟨a.tp.traceId, some (.gen (e.rng + 1)), a.tp.flags % 256⟩, a.tp.spanId, a.state⟩) (e.rng + 1) := by
     intro a' k h1 h2; cases h1; cases h2; exact Nat.le_refl _
   rcases ho with rfl | ho
   · right
@@ -356,7 +395,7 @@ theorem sampled_in_trace (c : Cfg) : ∀ (p : Prog) (e : Env) (a : Active), NoPu
       have : a.tp.flags % 2 = 1 := by simpa using hs
       have : a.tp.flags % 256 % 2 = 1 := by omega
       simpa using this
-    have hb' : Below (some ⟨⟨a.tp.traceId, some (.gen (e.rng + 1)), a.tp.flags % 256⟩, a.tp.spanId⟩) (e.rng + 1) := by
+    have hb' : Below (some ⟨⟨a.tp.traceId, some (.gen (e.rng + 1)), a.tp.flags % 256⟩, a.tp.spanId, a.state⟩) (e.rng + 1) := by
       intro a' k h1 h2; cases h1; cases h2; exact Nat.le_refl _
     rcases ho with rfl | ho
     · right
@@ -370,6 +409,14 @@ theorem sampled_in_trace (c : Cfg) : ∀ (p : Prog) (e : Env) (a : Active), NoPu
         · exact Or.inl h
       · exact Or.inr h
   | .push _ _, _, _, hn, _, _, _, _ => by simp [NoPush] at hn
+  | .pushBoth _ _ _, _, _, hn, _, _, _, _ => by simp [NoPush] at hn
+  | .pushState ts cs, e, a, hn, hb, hst, hv, hs => by
+    intro o ho
+    simp only [run] at ho
+    have hb' : Below (some (stateActive e.st ts)) e.rng := below_stateActive e.st ts e.rng hb
+    have hsa : stateActive e.st ts = { a with state := ts } := by simp [stateActive, hst]
+    exact sampled_list c cs { e with st := some (stateActive e.st ts) } { a with state := ts }
+      (by simpa [NoPush] using hn) hb' (by simp [hsa]) hv hs o (by simpa using ho)
   | .carry cs, e, a, hn, hb, hst, hv, hs => by
     intro o ho
     simp only [run, enterSt_self_none] at ho
@@ -397,7 +444,7 @@ theorem sampled_in_trace (c : Cfg) : ∀ (p : Prog) (e : Env) (a : Active), NoPu
 theorem span_in_sampled_trace (c : Cfg) (cs : List Prog) (e : Env) (a : Active) (hb : Below e.st e.rng)
     (hst : e.st = some a) (hv : a.tp.valid = true) (hs : a.tp.sampled = true) :
     let sid := Id.gen (e.rng + 1)
-    let inner : Active := ⟨⟨a.tp.traceId, some sid, a.tp.flags % 256⟩, a.tp.spanId⟩
+    let inner : Active := ⟨⟨a.tp.traceId, some sid, a.tp.flags % 256⟩, a.tp.spanId, a.state⟩
     let e2 := runList c cs { e with st := some inner, rng := e.rng + 1,
                                     out := .spanOpen true ⟨a.tp.traceId, a.tp.spanId, some sid⟩ :: e.out }
     run c (.span cs) e = { e2 with st := e.st, out := .spanDone ⟨a.tp.traceId, a.tp.spanId, some sid⟩ :: e2.out } := by
@@ -412,16 +459,16 @@ theorem span_in_sampled_trace (c : Cfg) (cs : List Prog) (e : Env) (a : Active) 
 
 /-- An event reports exactly the active traceparent; ids are visible only when it is sampled. -/
 theorem event_reports_current (c : Cfg) (e : Env) (a : Active) (hst : e.st = some a) :
-    run c .event e = { e with out := .event a.tp (if a.tp.sampled then ⟨a.tp.traceId, a.spanParent, a.tp.spanId⟩ else Ids.empty)
+    run c .event e = { e with out := .event a.tp a.state (if a.tp.sampled then ⟨a.tp.traceId, a.spanParent, a.tp.spanId⟩ else Ids.empty)
                                       true a.tp.sampled :: e.out } := by
-  simp [run, observeEvent, hst, current, ambientIds]
+  simp [run, observeEvent, hst, current, currentState, ambientIds]
 
 /-- **An incoming header makes the next spans children of the caller's span.** Under a pushed valid sampled
     header a span gets the header's trace id and the header's span id as its parent, without a sampler call. -/
 theorem pushed_header_parents_spans (c : Cfg) (tp : TP) (cs : List Prog) (e : Env)
     (hx : ∀ k, tp.spanId ≠ some (.gen k)) (hv : tp.valid = true) (hs : tp.sampled = true) :
     let sid := Id.gen (e.rng + 1)
-    let inner : Active := ⟨⟨tp.traceId, some sid, tp.flags % 256⟩, tp.spanId⟩
+    let inner : Active := ⟨⟨tp.traceId, some sid, tp.flags % 256⟩, tp.spanId, currentState e.st⟩
     let e2 := runList c cs { e with st := some inner, rng := e.rng + 1,
                                     out := .spanOpen true ⟨tp.traceId, tp.spanId, some sid⟩ :: e.out }
     run c (.push tp [.span cs]) e = { e2 with st := e.st, out := .spanDone ⟨tp.traceId, tp.spanId, some sid⟩ :: e2.out } := by
@@ -460,11 +507,52 @@ theorem root_without_sampler_is_sampled (c : Cfg) (e : Env) (hns : c.hasSampler 
     trace was lost: no active traceparent there. -/
 theorem carry_unfixed_loses_trace (st : Option Active) : carryUnfixedInside st = none := rfl
 
+/-! ### Tracestate travels with the traceparent and never changes the decision -/
+
+/-- **Pushing a tracestate does not touch the trace.** Under `Tracestate::push` the current traceparent, the
+    ambient ids, whether a valid traceparent is active (so whether the next span is a root and costs a sampler
+    call) and the sampled flag are exactly what they were; only `Tracestate::current()` changes. -/
+theorem push_state_keeps_traceparent (st : Option Active) (ts : Nat) :
+    current (some (stateActive st ts)) = current st ∧
+    ambientIds (some (stateActive st ts)) = ambientIds st ∧
+    validOf (some (stateActive st ts)) = validOf st ∧
+    currentState (some (stateActive st ts)) = ts := by
+  cases st with
+  | none => simp [stateActive, current, ambientIds, validOf_some, validOf_none, TP.empty, TP.valid, TP.sampled, Ids.empty, currentState]
+  | some a => exact ⟨rfl, rfl, by simp [validOf_some, stateActive], rfl⟩
+
+/-- **`emit_traceparent::push(tp, ts)` is `Traceparent::push(tp)` with `Tracestate::push(ts)` inside it** (the
+    free function carries its own copy of the span-parent rule; this says the copy agrees). -/
+theorem push_both_is_push_then_state (c : Cfg) (tp : TP) (ts : Nat) (cs : List Prog) (e : Env) :
+    run c (.pushBoth tp ts cs) e = run c (.push tp [.pushState ts cs]) e := by
+  simp [run, runList, bothActive, stateActive]
+
+/-- **Children inherit the tracestate, a new trace starts with the empty one.** The frame of a span opened
+    under a valid traceparent carries that traceparent's tracestate; a root span's frame carries the empty
+    tracestate (whatever an invalid active traceparent held). -/
+theorem span_tracestate (c : Cfg) (e : Env) :
+    ∃ a', (openSpec c e).2.2.1 = some a' ∧
+      a'.state = (match e.st.filter (fun a => a.tp.valid) with | some a => a.state | none => 0) := by
+  unfold openSpec
+  cases hf : e.st.filter (fun a => a.tp.valid) with
+  | none => dsimp only; cases c.hasSampler <;> exact ⟨_, rfl, rfl⟩
+  | some a => exact ⟨_, rfl, rfl⟩
+
+/-- A traceparent pushed by header keeps the tracestate in force. -/
+theorem push_keeps_state (st : Option Active) (tp : TP) : (pushedActive st tp).state = currentState st := rfl
+
 /-! ### Non-vacuity -/
 private def cfg0 : Cfg := ⟨true, [true, false], false⟩
 example : (run cfg0 (.span [.event, .span [.event]]) env0).calls = 1 := by decide
 example : (run cfg0 (.span [.carry [.span []], .spanThread [.event]]) env0).calls = 1 := by decide
 example : roots true false (.span [.span [], .push ⟨none, none, 1⟩ [.span []]]) = 2 := by decide
 example : roots false false (.span [.span [], .push ⟨none, none, 1⟩ [.span []]]) = 0 := by decide
+-- a tracestate pushed inside a trace is seen by events in child spans; the sampler still runs once
+example : (run cfg0 (.span [.pushState 7 [.span [.event]]]) env0).calls = 1 := by decide
+example : ((run cfg0 (.span [.pushState 7 [.span [.event]]]) env0).out.any fun o =>
+    match o with | .event _ 7 _ _ _ => true | _ => false) = true := by decide
+-- … while one pushed outside any trace is dropped when a root span starts
+example : ((run cfg0 (.pushState 7 [.span [.event]]) env0).out.any fun o =>
+    match o with | .event _ 0 _ _ _ => true | _ => false) = true := by decide
 
 end EmitModel.C18
